@@ -127,6 +127,14 @@ def gen_plan(run_seed, tier, index):
                 if nk:
                     x = r.choice(nk)
                     props[x] = {'t': props[x]['t'], 'a': []}
+            elif bad < 0.20:
+                # a NULL value whose array-ness contradicts the class
+                nk = [x for x in props if not x.lower().startswith('k')]
+                if nk:
+                    x = r.choice(nk)
+                    props[x] = {'t': props[x]['t'], 'v': None} \
+                        if 'a' in props[x] else {'t': props[x]['t'],
+                                                 'a': None}
             cn = r.choice([c['name'], c['name'], c['name'].lower()])
             if r.random() < 0.04:
                 cn = 'NoSuch'
@@ -145,7 +153,7 @@ def gen_plan(run_seed, tier, index):
             steps.append(['modify', ci, r.randrange(50),
                           r.choice(['exact', 'exact', 'exact', 'case',
                                     'keychange', 'deleted', 'clsmismatch',
-                                    'undeclared', 'wrongtype']),
+                                    'undeclared', 'wrongtype', 'wrongarray']),
                           r.randrange(1 << 30),
                           r.choice(['none', 'none', 'subset', 'all', 'empty',
                                     'absent', 'bogus'])])
@@ -523,6 +531,16 @@ def execute(plan):
                             d['name'], None,
                             type='string' if d['type'] != 'string'
                             else 'uint8', is_array=d.get('array', False)))
+                elif how == 'wrongarray':
+                    # NULL with the wrong array-ness
+                    cand = [d for d in ap.values() if not d.get('key')]
+                    if cand:
+                        d = cand[vseed % len(cand)]
+                        props = [p for p in props
+                                 if p.name.lower() != d['name'].lower()]
+                        props.append(pywbem.CIMProperty(
+                            d['name'], None, type=d['type'],
+                            is_array=not d.get('array', False)))
             inst = CIMInstance(cname if how != 'clsmismatch' else 'Other',
                                properties=props)
             # (assigned last: CIMInstance syncs path keybindings when a key
@@ -537,6 +555,7 @@ def execute(plan):
                 pl = list(supplied)
             elif plmode == 'subset':
                 pl = supplied[:max(1, len(supplied) // 2)]
+
             elif plmode == 'bogus':
                 pl = supplied[:1] + ['NoSuchProp']
             else:   # 'absent': names a declared property not supplied
@@ -547,6 +566,10 @@ def execute(plan):
                         if not d.get('key') and d['name'].lower() not in
                         {x.lower() for x in supplied}]
                     pl += absent[:1]
+            if plmode in ('all', 'subset'):
+                # CIM names are case insensitive: the PropertyList may spell
+                # a name differently than the instance does
+                pl = [x.swapcase() if vr.random() < 0.4 else x for x in pl]
             what = 'ModifyInstance(%s, props=%s, PropertyList=%r)' % (
                 path, supplied, pl)
             args = {'ModifiedInstance': inst}
